@@ -105,9 +105,9 @@ def hypotheses(c, H, A, L, W):
 
 
 def within_documented_limit(c, H, A):
-    """ every line, terminator included, is at most A*H bytes long """
-    return all(len(ln) + 1 <= A * H for ln in c.split(b'\n')[:-1]) and \
-        len(c.split(b'\n')[-1]) <= A * H
+    """ every line has fewer than A*H bytes before its line feed / the end
+    of the file (now also the exact budget of the code, see C11) """
+    return all(len(ln) < A * H for ln in c.split(b'\n'))
 
 
 # ------------------------------------------------------------ implementation
@@ -304,9 +304,9 @@ def gen_log(rng, nlines, H, ordered=True, max_run=None, len_marks=None,
 
 
 def gen_tight(rng, H, A, L):
-    """ time-ordered log whose lines sit exactly at the search budget:
-    interior lines up to A*H bytes (terminator included), first line up to
-    (A-1)*H + 1, an unterminated last line up to (A-1)*H """
+    """ time-ordered log whose lines sit exactly at the search budget: up to
+    A*H bytes terminator included, A*H - 1 for an unterminated last line;
+    first, interior and last lines alike """
     def line(target, t):
         # target = length with terminator
         if t is not None and target - 1 >= 19:
@@ -320,13 +320,11 @@ def gen_tight(rng, H, A, L):
     out, times, run = bytearray(), [], 0
     final_lf = rng.random() < 0.6
     for i in range(nl):
-        if i == 0:
-            cap = (A - 1) * H + 1
-        elif i == nl - 1 and not final_lf:
-            cap = (A - 1) * H + 1          # body <= (A-1)*H, no terminator
-        else:
-            cap = A * H
-        target = rng.choice([cap, cap, cap - 1, max(1, cap - H), 21, 20, 2, 1])
+        # length with terminator <= A*H; an unterminated last line has
+        # target - 1 <= A*H - 1 bytes
+        cap = A * H
+        target = rng.choice([cap, cap, cap - 1, cap - H + 1, cap - H + 2,
+                             max(1, cap - H), 21, 20, 2, 1])
         target = max(1, min(target, cap))
         want_dated = rng.random() < 0.7 or run >= L - 1
         if want_dated and target - 1 < 19 and cap - 1 >= 19:
@@ -466,9 +464,9 @@ def run_cases(chk, tag, items, claim, shard):
                        'MAX_DATETIME_READ_BYTES': W,
                        'inside_hypotheses': inside,
                        'first_difference': bad}, witness=False)
-    # lines within the documented A*H limit but outside the exact budget of
-    # the modelled code: the implementation (== model) raises
-    # MaxSearchableLineLengthReached and skips the file
+    # regression guard: lines within the documented A*H limit but outside the
+    # exact budget computed by the reference (cannot happen while the two
+    # coincide) on which the implementation raises and skips the file
     differs = {i for i, _ in mism}
     for i, doc in enumerate(docs):
         if not doc or i in differs:
@@ -652,7 +650,7 @@ def run(chk):
     items = []
     for k in range(30 if q else 200):
         H = rng.choice([7, 8, 16])
-        A = rng.choice([a for a in (3, 4, 5, 6, 8) if (a - 1) * H >= 21])
+        A = rng.choice([a for a in (2, 3, 4, 5, 6, 8) if a * H >= 24])
         L = rng.choice([2, 3, 4, L0])
         c, times = gen_tight(rng, H, A, L)
         items.append((H, A, L, rng.choice([W0, 19]), c,
@@ -683,30 +681,36 @@ def run(chk):
     chk.dist('files_hostile', len(items))
     run_cases(chk, 'hostile', items, False, shard=8)
 
-    # the documented limit with the real constants: an older first line just
-    # below 1 MiB followed by an in-window line (implementation vs reference)
+    # the documented limit with the real constants (regression corpus of the
+    # defect repaired by 19d446e): an older first line just below 1 MiB
+    # followed by an in-window line, and an in-window unterminated last line
+    # just below 1 MiB; implementation vs reference
     lim = H0 * A0
     if lim <= (1 << 22):
-        c = (ts_text(0) + b' ' + b'x' * (lim - 130) + b'\n' +
-             ts_text(100) + b' in window\n')
-        res = impl_case(c, to_dt(50), H0, A0, L0, W0)
-        want = ref_first_in_window(c, to_secs(50), W0)
-        chk.coverage['evaluations'] += 1
-        linelen = c.index(b'\n') + 1
-        chk.dist('big_first_line_outcome_%s' % res[0][0])
-        if res[1] != [want]:
-            h0, h1, h2, h3, _ = hypotheses(c, H0, A0, L0, W0)
-            chk.violation(
-                'maxline-raised-within-limit edge=first-line: since seek '
-                'skips the file' if res[0] == [4] else
-                'since-position-differs-from-first-in-window (big)',
-                {'content': f"b'{ts_text(0).decode()} ' + b'x'*{lim - 130} + "
-                            f"b'\\n{ts_text(100).decode()} in window\\n'",
-                 'first_line_len_with_terminator': linelen,
-                 'documented_limit': lim, 'since': str(to_dt(50)),
-                 'impl_outcome': res[0], 'impl_position': res[1],
-                 'first_in_window': want,
-                 'exact_budget_hypothesis_h1_holds': h1})
+        bigs = []
+        for k in (lim - 130, lim - 21):
+            bigs.append((ts_text(0) + b' ' + b'x' * k + b'\n' +
+                         ts_text(100) + b' in window\n',
+                         f"b'{ts_text(0).decode()} ' + b'x'*{k} + "
+                         f"b'\\n{ts_text(100).decode()} in window\\n'",
+                         'first'))
+            bigs.append((ts_text(0) + b' old\n' + ts_text(100) + b' ' +
+                         b'x' * k,
+                         f"b'{ts_text(0).decode()} old\\n"
+                         f"{ts_text(100).decode()} ' + b'x'*{k}", 'last'))
+        for c, recipe, edge in bigs:
+            res = impl_case(c, to_dt(50), H0, A0, L0, W0)
+            want = ref_first_in_window(c, to_secs(50), W0)
+            chk.coverage['evaluations'] += 1
+            chk.dist(f'big_{edge}_line_outcome_{res[0][0]}')
+            if res[1] != [want]:
+                chk.violation(
+                    f'maxline-raised-within-limit edge={edge}-line: since '
+                    'seek skips the file' if res[0] == [4] else
+                    'since-position-differs-from-first-in-window (big)',
+                    {'content': recipe, 'documented_limit': lim,
+                     'since': str(to_dt(50)), 'impl_outcome': res[0],
+                     'impl_position': res[1], 'first_in_window': want})
 
     growth_runs(chk, 60 if q else 400, H0, A0, L0, W0)
     done = suffix_runs(chk, metas, 60 if q else 300)
